@@ -87,9 +87,18 @@ func collectAddressFilters(q interface {
 			if isPartialAddress(v) {
 				needSegments = true
 			}
-		default:
-			// $in operator passes arrays — these are always exact addresses,
-			// not partial, so we skip them (no GIN index optimization possible).
+		case []any:
+			// $in operator passes arrays of exact addresses. They have to be part of the
+			// pushed down disjunction too: a filter such as $or[$match address, $in address]
+			// is pushed, and restricting the lateral join to the $match patterns only
+			// drops the accounts selected by the $in branch.
+			for _, item := range v {
+				if address, ok := item.(string); ok {
+					addresses = append(addresses, address)
+				}
+			}
+		case []string:
+			addresses = append(addresses, v...)
 		}
 		return false
 	})
